@@ -5,7 +5,8 @@ cd "$(dirname "$0")/.."
 export CARGO_NET_OFFLINE=true
 # the generated part of the model (C18's type table) is regenerated from /repo's current source first
 python3 tools/c18_runner.py --translate-only || echo "translation failed (the C18 check will report it)"
-# ... and so is the translation of the waker kernel (FcGen/KSrc*.lean; the C01/C04/C16/C17/C20 checks redo it)
+# ... and so is the translation of the waker kernel, the families and the groups (FcGen/KSrc*.lean; the checks redo it; the
+# tuple containers go through rustc's macro expansion, tools/tuple_norm.py)
 python3 tools/rs2lean.py --repo /repo || echo "kernel translation failed (the checks will report it)"
 (cd lean && lake build) || echo "lake build incomplete (the checks report which module)"
 cp -n /repo/Cargo.lock harness/Cargo.lock 2>/dev/null || true
